@@ -702,7 +702,9 @@ func (e *Env) ResyncPod(ns, name string, race bool) {
 	} else if p := e.APIPod(ns, name); p != nil {
 		old = p
 	} else {
-		return // a pod nobody knows: syncTask would GET NotFound and fail to delete it from the cache
+		// a pod nobody knows: the real syncTask GETs NotFound and finds nothing to delete in the cache
+		t, i := PodID(name)
+		old = NewPod(ns, t, i, v1.PodRunning, false, false, 0)
 	}
 	api := e.APIPod(ns, name)
 	if race && api != nil {
